@@ -68,7 +68,7 @@ fn owns(prop: &str, site: &str) -> bool {
                 "OrphaDisease::to_hpo_set.iter",
             ])
         }
-        "C03" => site == "ic_get_kind" || is_panic_of(&["HpoTerm::information_content"]),
+        "C03" => matches!(site, "ic_get_kind" | "ic_gene" | "ic_omim" | "ic_orpha") || is_panic_of(&["HpoTerm::information_content"]),
         "C19" => {
             matches!(
                 site,
@@ -156,6 +156,11 @@ fn gen_c19_facts(rng: &mut Rng, flags: bool) -> FactSet {
             f.edges.push((t, p));
         }
         lower.push(t);
+    }
+    // HP:118 itself below a top-level branch (it stays a child of HP:1, hence no modifier root, but it
+    // descends from one)
+    if pheno_under_root && !mods.is_empty() && rng.chance(1, 8) {
+        f.edges.push((118, *rng.pick(&mods)));
     }
     // a direct child of HP:118 that is also below a modifier
     if !mods.is_empty() && rng.chance(1, 4) {
@@ -618,11 +623,19 @@ impl StateMonitor {
         let path = [PathKind::BuilderDefaults, PathKind::BytesV3, PathKind::Jax, PathKind::BytesV2, PathKind::BytesV1, PathKind::JaxTransitive]
             [parts[2].parse::<usize>().unwrap() % 6];
         let mut f = gen_c19_facts(rng, false);
-        let drop: Vec<u32> = match variant % 3 {
+        let drop: Vec<u32> = match variant % 5 {
             0 => vec![1],
             1 => vec![118],
-            _ => vec![1, 118],
+            2 => vec![1, 118],
+            // 3: no term at all; 4: no term, no record
+            _ => f.terms.iter().map(|t| t.id).collect(),
         };
+        if variant % 5 == 4 {
+            f.recs = Default::default();
+        }
+        if variant % 5 >= 3 {
+            out.bucket("missing_root/ontology_without_any_term");
+        }
         f.terms.retain(|t| !drop.contains(&t.id));
         f.edges.retain(|(c, p)| !drop.contains(c) && !drop.contains(p));
         for k in 0..3 {
@@ -693,7 +706,7 @@ impl Monitor for StateMonitor {
     fn plan(&self, tier: Tier) -> Vec<String> {
         let mut v = catalogue_labels();
         if self.prop == "C19" {
-            for variant in 0..3 {
+            for variant in 0..5 {
                 for p in 0..6 {
                     v.push(format!("noroot:{variant}:{p}"));
                 }
